@@ -11,3 +11,19 @@ Definition table_order_ok (L : tk -> Z) (stop : Z) : bool :=
   && (L KLbracket <? L KLparen)
   && forallb (fun t => L t =? 0)
        [KIdentifier; KQuotedIdentifier; KNumber; KLiteral; KRbracket; KComma; KColon; KAt; KAmpersand; KRparen; KRbrace; KEof].
+
+(** The documented table itself (the numbers of the reference implementation's
+    documentation; only their order matters). The reference parser of
+    Parser.v is instantiated with it, never with the table read from the code. *)
+Definition spec_lbp (t : tk) : Z :=
+  match t with
+  | KPipe => 1 | KOr => 2 | KAnd => 3
+  | KEq | KNe | KLt | KLte | KGt | KGte => 5
+  | KFlatten => 9 | KStar => 20 | KFilter => 21 | KDot => 40 | KNot => 45
+  | KLbrace => 50 | KLbracket => 55 | KLparen => 60
+  | _ => 0
+  end.
+Definition spec_stop : Z := 10.
+
+Lemma spec_table_order : table_order_ok spec_lbp spec_stop = true.
+Proof. vm_compute. reflexivity. Qed.
